@@ -283,6 +283,7 @@ fn cmd_run(args: &[String]) -> i32 {
     let tier = arg(args, "--tier").unwrap_or("quick").to_string();
     let seed: u64 = arg(args, "--seed").and_then(|s| s.parse().ok()).unwrap_or(1);
     let runs: u64 = arg(args, "--runs").and_then(|s| s.parse().ok()).unwrap_or_else(|| default_runs(prop, &tier));
+    let runs = runs / arg(args, "--runs-div").and_then(|s| s.parse::<u64>().ok()).unwrap_or(1).max(1);
     let threads: usize = arg(args, "--threads").and_then(|s| s.parse().ok()).unwrap_or(16);
     let known = arg(args, "--known").map(run::load_known).unwrap_or_default();
     let replay_dir = arg(args, "--replay-dir").unwrap_or("/verif/replays").to_string();
